@@ -24,7 +24,7 @@ TRUSTED = [
 ASSUMPTIONS = [
     "object graph model: Grid, Cube and non-composite ParametricTransform instances; composite transforms share their sub-modules between "
     "shallow copies and are covered by the runtime sweep only",
-    "effect skeletons: 62 names listed in Model/HeapPins.v are too coarse to be proved and are covered by the runtime sweep only",
+    "effect skeletons: the names listed in Model/HeapPins.v are too coarse to be proved and are covered by the runtime sweep only",
 ]
 
 COQ_HEAD = ("From Coq Require Import String List Bool Arith.\nFrom DV Require Import Model.ObjGraph Model.Heap Gen.MutSkeleton.\n"
@@ -259,7 +259,7 @@ MANIFEST_ENTRY = {
             "Tie: translator unit MutSkeleton (skeletons, copy protocol tables, fingerprints pinned by theorem) + correspondence replaying "
             "random copy / accessor / edit sequences on real objects against the model + runtime sweep (before/after snapshots with tensor "
             "version counters) of every function and every public method of Grid, Cube, Image, ImageBatch, FlowField(s) and 17 transform kinds.",
-    "note": "Partial: composite transforms and MultiLevelTransform.tensor() are outside the object-graph model (runtime sweep only); 62 skeleton "
+    "note": "Partial: composite transforms and MultiLevelTransform.tensor() are outside the object-graph model (runtime sweep only); the listed skeleton "
             "names cannot be proved clean by the coarse alias abstraction (runtime sweep only); the sweep uses representative arguments in "
             "D in {2,3}. Trusted: list of torch functions/methods assumed to return new storage, nn.Module.__setattr__ model.",
 }
